@@ -52,6 +52,9 @@ type vbHeaderSpec struct {
 	Height int    `json:"height"`
 	Gap    int    `json:"gap"` // minutes after the parent; 0 = derive from Work (1: 21 min, 2: 10 min)
 	Recent *bool  `json:"recent,omitempty"` // false: dated more than 24 h ago (absent = recent)
+	// Run > 1: the id stands for a run of that many consecutive real headers
+	// (its own header is the last one of the run); 0 / 1 = a single header.
+	Run int `json:"run"`
 }
 
 type vbUniverse struct {
@@ -61,6 +64,8 @@ type vbUniverse struct {
 	MaxBatch    int            `json:"max_batch_len"`
 	BaseHours   int            `json:"base_hours_ago"` // age of the genesis header (0 = 12 h)
 	AutoWork    bool           `json:"auto_work"`
+	Batches     [][]int        `json:"batches"`
+	RunGapS     int            `json:"run_gap_s"` // seconds between the headers of a run
 	Params      struct {
 		RetargetBlocks      int  `json:"retarget_blocks"`
 		ReduceMinDifficulty bool `json:"reduce_min_difficulty"`
@@ -75,6 +80,60 @@ type vbChain struct {
 	byHash map[chainhash.Hash]int
 	maxH   int
 	work   []int64 // blockchain.CalcWork of every header's bits
+
+	// Universes with runs ("long chain" class): the model and the Props count
+	// in ids, the stores hold real headers. inner[i] are the run-1 headers
+	// that precede hdr[i] in its run (oldest first), realH[i] the real height
+	// of hdr[i], rOf[m] the real height of every id of model height m (the
+	// same for all of them, checked), first maps the hash of a run's first
+	// header to its id.
+	long      bool
+	run       []int
+	inner     [][]*wire.BlockHeader
+	innerHash [][]chainhash.Hash
+	realH     []int
+	rOf       []int
+	first     map[chainhash.Hash]int
+}
+
+// R: real height of model height m. M: model height of real height r, vbG if
+// r lies inside a run (not a height the model knows). MFloor: the greatest
+// model height whose real height is <= r (order-preserving, for tips that are
+// only compared).
+func (c *vbChain) R(m int) int {
+	if !c.long {
+		return m
+	}
+	if m < len(c.rOf) {
+		return c.rOf[m]
+	}
+	return c.rOf[len(c.rOf)-1] + m - (len(c.rOf) - 1)
+}
+
+func (c *vbChain) MFloor(r int) int {
+	if !c.long || r < 0 {
+		return r
+	}
+	last := len(c.rOf) - 1
+	if r >= c.rOf[last] {
+		return last + r - c.rOf[last]
+	}
+	m := 0
+	for m+1 <= last && c.rOf[m+1] <= r {
+		m++
+	}
+	return m
+}
+
+func (c *vbChain) M(r int) int {
+	if !c.long || r < 0 {
+		return r
+	}
+	m := c.MFloor(r)
+	if c.R(m) != r {
+		return vbG
+	}
+	return m
 }
 
 // vbRequiredBits is the harness's own implementation of the difficulty rules
@@ -194,29 +253,62 @@ func vbBuildChain(u *vbUniverse, now time.Time) (*vbChain, error) {
 	c.hash[0] = ghash
 	c.byHash[ghash] = 0
 
+	// full[i]: the real chain from genesis up to and including hdr[i]
+	full := make([][]*wire.BlockHeader, n)
+	full[0] = []*wire.BlockHeader{&gh}
+	c.run = make([]int, n)
+	c.inner = make([][]*wire.BlockHeader, n)
+	c.innerHash = make([][]chainhash.Hash, n)
+	c.realH = make([]int, n)
+	c.first = map[chainhash.Hash]int{}
+	c.run[0] = 1
+	runGap := time.Duration(u.RunGapS) * time.Second
+	if runGap == 0 {
+		runGap = 5 * time.Second
+	}
+
 	// ids are topologically ordered (parent id < child id)
 	for i := 1; i < n; i++ {
 		s := u.Headers[i]
 		if s.ID != i || s.Parent >= i {
 			return nil, fmt.Errorf("universe not topologically ordered at %d", i)
 		}
-		par := c.hdr[s.Parent]
-		h := &wire.BlockHeader{Version: 4, PrevBlock: c.hash[s.Parent]}
+		anc := append([]*wire.BlockHeader(nil), full[s.Parent]...)
+		c.run[i] = 1
+		if s.Run > 1 {
+			// the run's inner headers: valid main-chain headers a few seconds
+			// apart (never easier than their parent: no 20-minute gap)
+			c.run[i] = s.Run
+			c.long = true
+			for j := 0; j < s.Run-1; j++ {
+				prev := anc[len(anc)-1]
+				ih := &wire.BlockHeader{Version: 4, PrevBlock: prev.BlockHash()}
+				var mr [32]byte
+				mr[0], mr[1], mr[2], mr[3] = byte(i), 0xCD, byte(j), byte(j>>8)
+				ih.MerkleRoot = mr
+				ih.Timestamp = prev.Timestamp.Add(runGap)
+				ih.Bits = vbRequiredBits(&p, u.Params.RetargetBlocks, anc, ih.Timestamp)
+				vbMine(ih, true)
+				c.inner[i] = append(c.inner[i], ih)
+				c.innerHash[i] = append(c.innerHash[i], ih.BlockHash())
+				anc = append(anc, ih)
+			}
+			c.first[c.innerHash[i][0]] = i
+		}
+		c.realH[i] = c.realH[s.Parent] + c.run[i]
+		par := anc[len(anc)-1]
+		h := &wire.BlockHeader{Version: 4, PrevBlock: par.BlockHash()}
 		var mr [32]byte
 		mr[0], mr[1] = byte(i), 0xAB
 		h.MerkleRoot = mr
-		var anc []*wire.BlockHeader
-		for j := s.Parent; j >= 0; j = u.Headers[j].Parent {
-			anc = append([]*wire.BlockHeader{c.hdr[j]}, anc...)
-			if j == 0 {
-				break
-			}
-		}
 		gap := time.Duration(s.Gap) * time.Minute
 		if s.Gap == 0 {
 			gap = 10 * time.Minute
 			if s.Work == 1 {
 				gap = 21 * time.Minute
+			}
+			if s.Run > 1 {
+				gap = runGap
 			}
 		}
 		h.Timestamp = par.Timestamp.Add(gap)
@@ -276,8 +368,30 @@ func vbBuildChain(u *vbUniverse, now time.Time) (*vbChain, error) {
 		c.hdr[i] = h
 		c.hash[i] = h.BlockHash()
 		c.byHash[c.hash[i]] = i
+		full[i] = append(anc, h)
 		if s.Height > c.maxH {
 			c.maxH = s.Height
+		}
+	}
+	if c.long {
+		// one real height per model height, and messages carry single headers
+		c.rOf = make([]int, c.maxH+1)
+		for i := range c.rOf {
+			c.rOf[i] = -1
+		}
+		for i := 0; i < n; i++ {
+			m := u.Headers[i].Height
+			if c.rOf[m] >= 0 && c.rOf[m] != c.realH[i] {
+				return nil, fmt.Errorf("universe with runs: ids of model height %d have different real heights", m)
+			}
+			c.rOf[m] = c.realH[i]
+		}
+		for _, b := range u.Batches {
+			for _, id := range b {
+				if c.run[id] > 1 {
+					return nil, fmt.Errorf("universe with runs: batch %v carries the run id %d", b, id)
+				}
+			}
 		}
 	}
 	for hs, id := range u.Checkpoints {
@@ -306,21 +420,19 @@ func vbBuildChain(u *vbUniverse, now time.Time) (*vbChain, error) {
 		int64(p.TargetTimespan/time.Second)*p.RetargetAdjustmentFactor)
 	ts := blockchain.NewMedianTime()
 	for i := 1; i < n; i++ {
-		var anc []*wire.BlockHeader
-		for j := u.Headers[i].Parent; j >= 0; j = u.Headers[j].Parent {
-			anc = append([]*wire.BlockHeader{c.hdr[j]}, anc...)
-			if j == 0 {
-				break
+		chain := full[i]
+		// the inner headers of a run first (all valid), then the id's own header
+		for k := len(chain) - c.run[i]; k < len(chain); k++ {
+			pc := &vbSliceCtx{chain: chain, i: k - 1}
+			err := blockchain.CheckBlockHeaderContext(chain[k], pc, 0, cctx, true)
+			if err == nil {
+				err = blockchain.CheckBlockHeaderSanity(chain[k], c.params.PowLimit, ts, 0)
 			}
-		}
-		pc := &vbSliceCtx{chain: anc, i: len(anc) - 1}
-		err := blockchain.CheckBlockHeaderContext(c.hdr[i], pc, 0, cctx, true)
-		if err == nil {
-			err = blockchain.CheckBlockHeaderSanity(c.hdr[i], c.params.PowLimit, ts, 0)
-		}
-		if (err == nil) != (u.Headers[i].Kind == "ok") {
-			return nil, fmt.Errorf("generator/oracle disagreement on header %d (%s): %v",
-				i, u.Headers[i].Kind, err)
+			want := k < len(chain)-1 || u.Headers[i].Kind == "ok"
+			if (err == nil) != want {
+				return nil, fmt.Errorf("generator/oracle disagreement on header %d (%s; header %d of its run): %v",
+					i, u.Headers[i].Kind, k-(len(chain)-c.run[i]), err)
+			}
 		}
 	}
 	return c, nil
@@ -408,6 +520,55 @@ type vbFaultStore struct {
 	sawRollback bool
 	crash       *vbCrashPlan
 	rb          *vbRollbackFault
+	rd          *vbReadFault
+}
+
+// vbReadFault makes the fail-th FetchHeader / FetchHeaderAncestors call the
+// block manager makes on the block-header store during the current step
+// return an I/O error (0 = none). Only these two are counted: the observer of
+// the notification channel asks for backlogs while the step is still running
+// and those go through FetchHeaderByHeight.
+type vbReadFault struct {
+	mu      sync.Mutex
+	fail, n int
+	fired   bool
+}
+
+func (f *vbReadFault) arm(fail int) {
+	f.mu.Lock()
+	f.fail, f.n, f.fired = fail, 0, false
+	f.mu.Unlock()
+}
+
+func (f *vbReadFault) call() error {
+	if f == nil {
+		return nil
+	}
+	f.mu.Lock()
+	defer f.mu.Unlock()
+	if f.fail == 0 {
+		return nil
+	}
+	f.n++
+	if f.n == f.fail {
+		f.fired = true
+		return fmt.Errorf("verif: injected failure of block-store read call %d", f.n)
+	}
+	return nil
+}
+
+func (s *vbFaultStore) FetchHeader(h *chainhash.Hash) (*wire.BlockHeader, uint32, error) {
+	if err := s.rd.call(); err != nil {
+		return nil, 0, err
+	}
+	return s.BlockHeaderStore.FetchHeader(h)
+}
+
+func (s *vbFaultStore) FetchHeaderAncestors(n uint32, stop *chainhash.Hash) ([]wire.BlockHeader, uint32, error) {
+	if err := s.rd.call(); err != nil {
+		return nil, 0, err
+	}
+	return s.BlockHeaderStore.FetchHeaderAncestors(n, stop)
 }
 
 // vbRollbackFault makes the k-th RollbackLastBlock call of the current headers
@@ -544,6 +705,7 @@ type vbEnv struct {
 	ffst  *vbFaultFStore
 	crash *vbCrashPlan
 	rb    *vbRollbackFault
+	rd    *vbReadFault
 	fs    headerfs.FilterHeaderStore
 	bm    *blockManager
 	cands *list.List
@@ -553,6 +715,7 @@ type vbEnv struct {
 	// 100+i+1, so that it can never be mistaken for the peer now in that slot
 	gone [][]*ServerPeer
 	fhCache map[int]chainhash.Hash // true chained filter header per block id
+	runFHCache map[int][]chainhash.Hash
 	fhID    map[chainhash.Hash]int
 	hmax    int
 	flush   chan chan struct{}
@@ -618,7 +781,8 @@ func (e *vbEnv) reopenStores() error {
 func (e *vbEnv) startManager() error {
 	e.crash = &vbCrashPlan{}
 	e.rb = &vbRollbackFault{}
-	e.fst = &vbFaultStore{BlockHeaderStore: e.bs, crash: e.crash, rb: e.rb}
+	e.rd = &vbReadFault{}
+	e.fst = &vbFaultStore{BlockHeaderStore: e.bs, crash: e.crash, rb: e.rb, rd: e.rd}
 	e.ffst = &vbFaultFStore{FilterHeaderStore: e.fs, crash: e.crash, rb: e.rb}
 	bm, err := newBlockManager(&blockManagerCfg{
 		ChainParams:      e.c.params,
@@ -678,11 +842,11 @@ func (e *vbEnv) startManager() error {
 				switch m := n.(type) {
 				case *blockntfns.Connected:
 					hd := m.Header()
-					rec = []int{1, e.idOf(&hd), int(m.Height()), -1, seen, best}
+					rec = []int{1, e.idOf(&hd), e.c.M(int(m.Height())), -1, e.c.MFloor(seen), e.c.MFloor(best)}
 				case *blockntfns.Disconnected:
 					hd := m.Header()
 					nt := m.ChainTip()
-					rec = []int{2, e.idOf(&hd), int(m.Height()), e.idOf(&nt), -1, -1}
+					rec = []int{2, e.idOf(&hd), e.c.M(int(m.Height())), e.idOf(&nt), -1, -1}
 				}
 				e.evMu.Lock()
 				e.ev = append(e.ev, rec)
@@ -790,11 +954,14 @@ func (e *vbEnv) observe() vbObs {
 	if err != nil {
 		o.B.Tip = []int{vbERR, vbERR}
 	} else {
-		o.B.Tip = []int{e.idOf(tip), int(th)}
+		o.B.Tip = []int{e.idOf(tip), e.c.M(int(th))}
 	}
+	// heights: the model's (in ids); with runs the store is read at the real
+	// height of each model height and real heights read back are translated
+	// (a real height inside a run = vbG)
 	o.B.ByH = make([]int, e.hmax)
 	for h := 0; h < e.hmax; h++ {
-		hd, err := e.bs.FetchHeaderByHeight(uint32(h))
+		hd, err := e.bs.FetchHeaderByHeight(uint32(e.c.R(h)))
 		if err != nil {
 			o.B.ByH[h] = vbNF
 		} else {
@@ -809,7 +976,7 @@ func (e *vbEnv) observe() vbObs {
 		hd, ht, err := e.bs.FetchHeader(&e.c.hash[i])
 		if err == nil {
 			o.B.ByHash[i] = e.idOf(hd)
-			o.B.HOf[i] = int(ht)
+			o.B.HOf[i] = e.c.M(int(ht))
 			continue
 		}
 		o.B.ByHash[i] = vbNF
@@ -817,7 +984,7 @@ func (e *vbEnv) observe() vbObs {
 		if err != nil {
 			o.B.HOf[i] = vbNF
 		} else {
-			o.B.HOf[i] = int(ht)
+			o.B.HOf[i] = e.c.M(int(ht))
 		}
 	}
 	// filter store: identity of a filter header = the block id whose true
@@ -826,11 +993,11 @@ func (e *vbEnv) observe() vbObs {
 	if ferr != nil {
 		o.F.Tip = []int{vbERR, vbERR}
 	} else {
-		o.F.Tip = []int{e.fhIDOf(ft), int(fth)}
+		o.F.Tip = []int{e.fhIDOf(ft), e.c.M(int(fth))}
 	}
 	o.F.ByH = make([]int, e.hmax)
 	for h := 0; h < e.hmax; h++ {
-		fh, err := e.fs.FetchHeaderByHeight(uint32(h))
+		fh, err := e.fs.FetchHeaderByHeight(uint32(e.c.R(h)))
 		if err != nil {
 			o.F.ByH[h] = vbNF
 		} else {
@@ -851,9 +1018,13 @@ func (e *vbEnv) observe() vbObs {
 	}
 	o.Bl = make([][]int, e.hmax-1)
 	for k := 1; k <= e.hmax-1; k++ {
-		ntfns, _, err := e.bm.NotificationsSinceHeight(uint32(k))
+		ntfns, _, err := e.bm.NotificationsSinceHeight(uint32(e.c.R(k)))
 		if err != nil {
 			o.Bl[k-1] = []int{vbERR}
+			continue
+		}
+		if e.c.long {
+			o.Bl[k-1] = e.foldBacklog(ntfns)
 			continue
 		}
 		ids := make([]int, 0, len(ntfns))
@@ -893,6 +1064,95 @@ func (e *vbEnv) observe() vbObs {
 	return o
 }
 
+// foldBacklog turns a backlog of real blocks into the model's ids: a single
+// header is its id; the headers of a run fold into the run's id only if ALL of
+// them are there, in the run's order, one after the other; anything else (a
+// header of a run without its neighbours, a header twice, an unknown one) is
+// vbG, one entry per block (at most three in a row are kept: the verdict only
+// needs the backlog to differ from the committed ids, the trace stays small).
+func (e *vbEnv) foldBacklog(ntfns []blockntfns.BlockNtfn) []int {
+	c := e.c
+	hashes := make([]chainhash.Hash, len(ntfns))
+	for j, x := range ntfns {
+		hd := x.Header()
+		hashes[j] = hd.BlockHash()
+	}
+	ids := make([]int, 0, 16)
+	garbage := 0
+	for j := 0; j < len(hashes); {
+		if id, ok := c.byHash[hashes[j]]; ok && c.run[id] == 1 {
+			ids = append(ids, id)
+			garbage = 0
+			j++
+			continue
+		}
+		if id, ok := c.first[hashes[j]]; ok && j+c.run[id] <= len(hashes) {
+			r := c.run[id]
+			whole := hashes[j+r-1] == c.hash[id]
+			for k := 1; whole && k < r-1; k++ {
+				whole = hashes[j+k] == c.innerHash[id][k]
+			}
+			if whole {
+				ids = append(ids, id)
+				garbage = 0
+				j += r
+				continue
+			}
+		}
+		if garbage < 3 {
+			ids = append(ids, vbG)
+		}
+		garbage++
+		j++
+	}
+	return ids
+}
+
+// runFH: the true chained filter headers of the real headers id stands for
+// (the run's inner headers, then its own).
+func (e *vbEnv) runFH(id int) []chainhash.Hash {
+	if fhs, ok := e.runFHCache[id]; ok {
+		return fhs
+	}
+	prev := e.trueFH(e.c.u.Headers[id].Parent)
+	r := e.c.run[id]
+	out := make([]chainhash.Hash, 0, r)
+	for j := 0; j < r; j++ {
+		fhash := vbFilterHash(id)
+		if j < r-1 {
+			fhash = chainhash.DoubleHashH([]byte(fmt.Sprintf("verif-filter-%d-inner-%d", id, j)))
+		}
+		prev = chainhash.DoubleHashH(append(fhash[:], prev[:]...))
+		out = append(out, prev)
+	}
+	if e.runFHCache == nil {
+		e.runFHCache = map[int][]chainhash.Hash{}
+	}
+	e.runFHCache[id] = out
+	return out
+}
+
+// expand: the store entries for the ids, written above real height `after`.
+func (e *vbEnv) expand(ids []int, after uint32) ([]headerfs.BlockHeader, []headerfs.FilterHeader) {
+	var hs []headerfs.BlockHeader
+	var fhs []headerfs.FilterHeader
+	h := after
+	for _, id := range ids {
+		if e.c.run[id] > 1 {
+			rf := e.runFH(id)
+			for j, ih := range e.c.inner[id] {
+				h++
+				hs = append(hs, headerfs.BlockHeader{BlockHeader: ih, Height: h})
+				fhs = append(fhs, headerfs.FilterHeader{HeaderHash: e.c.innerHash[id][j], FilterHash: rf[j], Height: h})
+			}
+		}
+		h++
+		hs = append(hs, headerfs.BlockHeader{BlockHeader: e.c.hdr[id], Height: h})
+		fhs = append(fhs, headerfs.FilterHeader{HeaderHash: e.c.hash[id], FilterHash: e.trueFH(id), Height: h})
+	}
+	return hs, fhs
+}
+
 // The filter header written for a block is derived by the code under test
 // from PrevFilterHeader and the filter hash; identify it by recomputing the
 // true chain along the block's ancestry.
@@ -907,6 +1167,9 @@ func (e *vbEnv) trueFH(id int) chainhash.Hash {
 			panic(err)
 		}
 		out = *g
+	} else if e.c.run[id] > 1 {
+		rf := e.runFH(id)
+		out = rf[len(rf)-1]
 	} else {
 		prev := e.trueFH(e.c.u.Headers[id].Parent)
 		fhash := vbFilterHash(id)
@@ -976,8 +1239,8 @@ func (e *vbEnv) exec(a vbAct) (out vbAct) {
 		if err != nil {
 			panic(err)
 		}
-		vbSetField(p, "startingHeight", int64(a.K))
-		vbSetField(p, "lastBlock", int64(a.K))
+		vbSetField(p, "startingHeight", int64(e.c.R(a.K)))
+		vbSetField(p, "lastBlock", int64(e.c.R(a.K)))
 		svc := wire.SFNodeNetwork | wire.SFNodeWitness | wire.SFNodeCF
 		if a.NF == 1 {
 			// not a full node: isSyncCandidate turns it down
@@ -1052,6 +1315,12 @@ func (e *vbEnv) exec(a vbAct) (out vbAct) {
 			stop = hd.BlockHash()
 		}
 		msg.StopHash = stop
+		// P = 40+j: the j-th FetchHeader / FetchHeaderAncestors call of this
+		// step on the block-header store fails, if the step makes it
+		if a.P > 40 {
+			e.rd.arm(a.P - 40)
+			defer e.rd.arm(0)
+		}
 		if _, _, err := e.bm.writeCFHeadersMsg(msg, e.ffst); err != nil {
 			out.Res = "err"
 		}
@@ -1063,13 +1332,7 @@ func (e *vbEnv) exec(a vbAct) (out vbAct) {
 			out.Res = "err"
 			return
 		}
-		hs := make([]headerfs.BlockHeader, 0, len(a.Batch))
-		fhs := make([]headerfs.FilterHeader, 0, len(a.Batch))
-		for j, id := range a.Batch {
-			h := th + uint32(j) + 1
-			hs = append(hs, headerfs.BlockHeader{BlockHeader: e.c.hdr[id], Height: h})
-			fhs = append(fhs, headerfs.FilterHeader{HeaderHash: e.c.hash[id], FilterHash: e.trueFH(id), Height: h})
-		}
+		hs, fhs := e.expand(a.Batch, th)
 		if err := e.bs.WriteHeaders(hs...); err != nil {
 			out.Res = "err"
 			return
@@ -1171,6 +1434,11 @@ func (w *vbWorker) reset() (ok bool) {
 	if e == nil || e.db == nil || e.bs == nil || e.fs == nil {
 		return false
 	}
+	if w.c.long {
+		// thousands of filter headers to take back one at a time: a fresh
+		// copy of the template is cheaper
+		return false
+	}
 	defer func() {
 		if r := recover(); r != nil {
 			ok = false
@@ -1268,21 +1536,14 @@ func (w *vbWorker) runPath(p vbPathIn) (out vbPathOut) {
 	// pre-synced initial state of this path: block headers and the first
 	// filter headers are written the way an earlier run of the client left them
 	if n := len(p.Init.BFile); n > 1 {
-		hs := make([]headerfs.BlockHeader, 0, n-1)
-		for h := 1; h < n; h++ {
-			hs = append(hs, headerfs.BlockHeader{BlockHeader: c.hdr[p.Init.BFile[h]], Height: uint32(h)})
-		}
+		hs, _ := e.expand(p.Init.BFile[1:], 0)
 		if err := e.bs.WriteHeaders(hs...); err != nil {
 			out.Error = "preload: " + err.Error()
 			return
 		}
 	}
 	if n := len(p.Init.FFile); n > 1 {
-		fhs := make([]headerfs.FilterHeader, 0, n-1)
-		for h := 1; h < n; h++ {
-			id := p.Init.FFile[h]
-			fhs = append(fhs, headerfs.FilterHeader{HeaderHash: c.hash[id], FilterHash: e.trueFH(id), Height: uint32(h)})
-		}
+		_, fhs := e.expand(p.Init.FFile[1:], 0)
 		if err := e.fs.WriteHeaders(fhs...); err != nil {
 			out.Error = "preload filters: " + err.Error()
 			return
